@@ -15,12 +15,12 @@ from bounded.common import Result, guarded  # noqa: E402
 # seeds on an unchanged tree.  MEASURED is documentation (re-measure with --tier thorough and read parts.measured_maxima).
 MEASURED = {
     "constant phase, custom weights": 6.3e-5,       # floor = tolerance of the lmfit offset fit, not the quadrature
-    "constant phase, named windows": 6.3e-5,
-    "ladders, >= 10 points/decade": 3.6e-2,                      # custom unit weights and named windows alike
+    "constant phase, named windows": 6.5e-5,
+    "ladders, >= 10 points/decade": 3.81e-2,                      # custom unit weights and named windows alike
     "ladders, 5 points/decade (information only)": 3.9e-2,     # 5.1e-2 seen once with akima in a spike
     "scaling: |rec(cZ)| / (c |rec(Z)|) - 1": 6.2e-5,           # the fitted offset is only accurate to the minimiser's tolerance
     "scaling: frequency dependence of that ratio": 5.3e-15,
-    "zero-weight points": 1.9e-13,
+    "zero-weight points": 5.9e-13,                                 # rounding of angle(factor * Z) vs angle(Z), not the offset fit
     "filters on constant/linear data (savgol odd num_points, whithend order >= 2, modsinc, lowess)": 7.9e-10,
 }
 _FROZEN = {
@@ -28,7 +28,7 @@ _FROZEN = {
     "ladder": 0.05,             # at >= 10 points/decade; 5 points/decade is recorded for information only
     "scaling_ratio": 5e-3,      # limited by the lmfit offset fit
     "scaling_shape": 1e-12,     # rec(cZ)/rec(Z) constant over frequency: pins the algebra of the reconstruction
-    "zero_weight": 1e-12,
+    "zero_weight": 1e-10,        # 100 x measured, rounded up
     "smoothing": 1e-6,
 }
 CONST_TOL, LADDER_TOL, SCALE_TOL = _FROZEN["constant_phase"], _FROZEN["ladder"], _FROZEN["scaling_ratio"]
